@@ -262,9 +262,9 @@ pub fn c07_scn(name: &str, full: bool) -> ChatScn {
     cfg.max_joins = Some(2);
     let mut s = ChatScn::new(name, cfg, vec![part(0, "alice", "alicia", "au"), part(1, "bob", "bobby", "bu")], 0);
     s.prelude = vec![(0, "JOIN #c".into())];
-    let mut a: Vec<&'static str> = vec!["MODE #c +i", "MODE #c -i", "MODE #c +k k", "MODE #c -k", "MODE #c +b bob!*@*", "MODE #c -b bob!*@*", "MODE #c +e bob!*@*", "MODE #c +I bob!*@*", "MODE #c +l 1", "MODE #c +l 2", "MODE #c -l", "INVITE {peer} #c"];
+    let mut a: Vec<&'static str> = vec!["MODE #c +i", "MODE #c -i", "MODE #c +k k", "MODE #c -k", "MODE #c +b bob!*@*", "MODE #c -b bob!*@*", "MODE #c +e bob!*@*", "MODE #c -e bob!*@*", "MODE #c +e zed!*@*", "MODE #c +I bob!*@*", "MODE #c +l 1", "MODE #c +l 2", "MODE #c -l", "INVITE {peer} #c"];
     if full {
-        a.extend(["MODE #c +b *!*@127.0.0.1", "MODE #c -e bob!*@*", "MODE #c -I bob!*@*", "MODE #c +b bobby", "KICK #c {peer}"]);
+        a.extend(["MODE #c +b *!*@127.0.0.1", "MODE #c -I bob!*@*", "MODE #c +I zed", "MODE #c +b bobby", "KICK #c {peer}"]);
     }
     for t in a {
         s.alphabet_for.push((0, t));
@@ -284,9 +284,11 @@ pub fn c07_product(full: bool) -> Vec<Script> {
     let mut out = vec![];
     let keys: Vec<Option<&str>> = vec![None, Some("k")];
     let supplied: Vec<Option<&str>> = vec![None, Some("k"), Some("wrong")];
-    let bans: Vec<Option<&str>> = if full { vec![None, Some("bob!*@*"), Some("zed!*@*"), Some("*!*@127.0.0.?")] } else { vec![None, Some("bob!*@*"), Some("zed!*@*")] };
-    let excs: Vec<Option<&str>> = if full { vec![None, Some("*!~bu@*"), Some("zed")] } else { vec![None, Some("*!~bu@*")] };
-    let invex: Vec<Option<&str>> = if full { vec![None, Some("bob"), Some("zed")] } else { vec![None, Some("bob")] };
+    // each menu entry is a list of MODE argument strings applied in order (several
+    // masks of which only some match; a list that was filled and emptied again)
+    let bans: Vec<Vec<&str>> = if full { vec![vec![], vec!["+b bob!*@*"], vec!["+b zed!*@*"], vec!["+b *!*@127.0.0.?"], vec!["+b zed!*@*", "+b bob!*@*"], vec!["+b bob!*@*", "-b bob!*@*"]] } else { vec![vec![], vec!["+b bob!*@*"], vec!["+b zed!*@*"], vec!["+b zed!*@*", "+b bob!*@*"]] };
+    let excs: Vec<Vec<&str>> = if full { vec![vec![], vec!["+e *!~bu@*"], vec!["+e zed"], vec!["+e zed", "+e *!~bu@*"], vec!["+e zed", "-e zed"], vec!["+e *!~bu@*", "-e *!~bu@*"]] } else { vec![vec![], vec!["+e *!~bu@*"], vec!["+e zed", "+e *!~bu@*"], vec!["+e zed", "-e zed"]] };
+    let invex: Vec<Vec<&str>> = if full { vec![vec![], vec!["+I bob"], vec!["+I zed"], vec!["+I zed", "+I bob"], vec!["+I bob", "-I bob"]] } else { vec![vec![], vec!["+I bob"], vec!["+I zed", "+I bob"]] };
     for key in &keys {
         for sup in &supplied {
             for ban in &bans {
@@ -313,17 +315,17 @@ pub fn c07_product(full: bool) -> Vec<Script> {
                                                 if let Some(k) = key {
                                                     prelude.push((0, format!("MODE #c +k {}", k)));
                                                 }
-                                                if let Some(b) = ban {
-                                                    prelude.push((0, format!("MODE #c +b {}", b)));
+                                                for b in ban.iter() {
+                                                    prelude.push((0, format!("MODE #c {}", b)));
                                                 }
-                                                if let Some(e) = exc {
-                                                    prelude.push((0, format!("MODE #c +e {}", e)));
+                                                for e in exc.iter() {
+                                                    prelude.push((0, format!("MODE #c {}", e)));
                                                 }
                                                 if inv_only {
                                                     prelude.push((0, "MODE #c +i".into()));
                                                 }
-                                                if let Some(i) = ie {
-                                                    prelude.push((0, format!("MODE #c +I {}", i)));
+                                                for i in ie.iter() {
+                                                    prelude.push((0, format!("MODE #c {}", i)));
                                                 }
                                                 if invited {
                                                     prelude.push((0, "INVITE bob #c".into()));
@@ -688,9 +690,9 @@ fn c15_probes(_scn: &ChatScn, w: &mut World, v: &View, goals: &mut BTreeSet<Stri
 pub fn c16_scn(name: &str, full: bool) -> ChatScn {
     let mut s = ChatScn::new(name, oper_cfg(), vec![part(0, "alice", "alicia", "au"), part(1, "bob", "bobby", "bu"), part(2, "carol", "caro", "cu")], 0);
     s.prelude = vec![(0, "OPER op oppw".into())];
-    let mut a: Vec<&'static str> = vec!["JOIN #x", "PART #x", "KICK #x {peer}", "KICK #x {me}", "KICK #x {peer},{me}", "MODE #x +o {peer}", "QUIT", "TOPIC #x :t", "MODE #x +i", "MODE #x +k k", "MODE #x +b m"];
+    let mut a: Vec<&'static str> = vec!["JOIN #x", "JOIN #y", "PART #x", "KICK #x {peer}", "KICK #x {me}", "KICK #x {peer},{me}", "MODE #x +o {peer}", "QUIT", "TOPIC #x :t", "TOPIC #y :u", "MODE #x +i", "MODE #x +k k", "MODE #x +b m"];
     if full {
-        a.extend(["JOIN #x k", "MODE #x +l 1", "JOIN #y"]);
+        a.extend(["JOIN #x k", "MODE #x +l 1", "JOIN #x,#y", "PART #y"]);
     }
     for slot in 0..3 {
         for t in &a {
@@ -713,6 +715,7 @@ pub fn c16_scn(name: &str, full: bool) -> ChatScn {
         s.probes_for.push((slot, "LIST"));
         s.probes_for.push((slot, "MODE #x"));
         s.probes_for.push((slot, "TOPIC #x"));
+        s.probes_for.push((slot, "TOPIC #y"));
     }
     s.probe_focus = Some(Focus { cats: vec![], relays: false, relay_verbs: None, actor: true, actor_codes: Some(vec!["254", "322", "403", "331", "332", "324"]), closes: false });
     s.step_oracle = Some(Box::new(c16_fresh));
